@@ -6,6 +6,11 @@
 -/
 import Qfx.Lemmas.CodecRound
 import Qfx.Lemmas.CodecDictGroup
+import Qfx.Lemmas.CodecDictNested
+import Qfx.Lemmas.CodecDictWalk
+import Qfx.Lemmas.CodecDictExample
+import Qfx.Lemmas.CodecDictStack
+import Qfx.Lemmas.CodecDictNest
 import Qfx.Lemmas.CodecGroupNested
 open Qfx Qfx.Spec
 
@@ -214,7 +219,8 @@ theorem C13_dict_flat_group_mid (d : Dicts) (mt : Bytes) (G d0 : Tag) (ts : List
       m.fields = t8 :: t9 :: t35 :: ((preA ++ countTV G es.length :: es.flatMap serEntry) ++ (z0 :: postB ++ [t10])) ∧
       alFind m.body.lookup G = some f ∧
       getGroup (flatTmpl (d0 :: ts)) (f.full m.fields) = .ok (readSpec (z0 :: postB ++ [t10]) es) ∧
-      (readSpec (z0 :: postB ++ [t10]) es).length = es.length := by
+      (readSpec (z0 :: postB ++ [t10]) es).length = es.length ∧
+      ((∀ tv ∈ postB, tv.tag ≠ z0.tag) → (m.body.getBytes m.fields z0.tag = .ok z0.value)) := by
   have hM : ∀ tv ∈ es.flatMap serEntry, IsWire tv ∧ isGroupMember tv.tag C = true := by
     intro tv htv
     obtain ⟨e, he, hm⟩ := List.mem_flatMap.1 htv
@@ -229,13 +235,23 @@ theorem C13_dict_flat_group_mid (d : Dicts) (mt : Bytes) (G d0 : Tag) (ts : List
   have hg0 : IsWire (countTV G es.length) := canonTV_isWire _ (canon_init G _ (fun c hc => by
       have := List.all_eq_true.1 (fmtNat_all_digits es.length) c hc
       have := (isDigit_iff c).1 this; unfold SOH; omega) hGi)
-  obtain ⟨m, hparse, hfields, hfind⟩ := parse_dict_group_mid hg t8 t9 t35 (countTV G es.length) z0 t10 preA (es.flatMap serEntry) postB
+  obtain ⟨m, hparse, hfields, hfind, hz0find⟩ := parse_dict_group_mid hg t8 t9 t35 (countTV G es.length) z0 t10 preA (es.flatMap serEntry) postB
     hw8 hw9 hw35 hw10 h8 h9 h35 h10 hv hpre hg0 rfl hGh hGt hM hz (by
       cases hc : isGroupMember z0.tag C with
       | false => rfl
       | true => exact absurd ((isGroupMember_iff _ _).1 hc) (by rw [hC]; exact hzm))
     hzh hzt hzG hng10 hh10 hbl
-  refine ⟨m, _, hparse, hfields, hfind, ?_, readSpec_length _ _⟩
+  refine ⟨m, _, hparse, hfields, hfind, ?_, readSpec_length _ _, ?_⟩
+  rotate_left
+  · intro hpz
+    apply getBytes_view _ _ _ _ z0 (hz0find hpz)
+    rw [hfields]
+    have hL' : t8 :: t9 :: t35 :: ((preA ++ countTV G es.length :: es.flatMap serEntry) ++ (z0 :: postB ++ [t10])) =
+        (t8 :: t9 :: t35 :: (preA ++ countTV G es.length :: es.flatMap serEntry)) ++ z0 :: (postB ++ [t10]) := by simp
+    rw [hL', List.getElem?_append_right (by simp; omega)]
+    have : 3 + preA.length + 1 + (es.flatMap serEntry).length - (t8 :: t9 :: t35 :: (preA ++ countTV G es.length :: es.flatMap serEntry)).length = 0 := by
+      simp; omega
+    rw [this]; rfl
   rw [hfields]
   have hL : t8 :: t9 :: t35 :: ((preA ++ countTV G es.length :: es.flatMap serEntry) ++ (z0 :: postB ++ [t10])) =
       (t8 :: t9 :: t35 :: preA) ++ countTV G es.length :: (es.flatMap serEntry ++ (z0 :: postB ++ [t10])) := by simp
@@ -245,7 +261,117 @@ theorem C13_dict_flat_group_mid (d : Dicts) (mt : Bytes) (G d0 : Tag) (ts : List
   rw [e] at this
   exact this
 
-/-- the same with the group LAST in the body (CheckSum closes it — the position in which the unchanged code also left `10=` inside
+/-- WITH THE DICTIONARY, A GROUP THAT CONTAINS A NESTED GROUP (the D6 scenario, after the fix), whole parse: the message
+    `8, 9, 35, plain…, G=<n>, leaf members of G…, N=<k>, members of N…, z0, plain…, 10` — `G` a group of the message type, `N` a group
+    nested in it, `z0` a member of neither — parses into `Message.fields` = the wire fields, the body maps `G` to exactly the count
+    field, its members, the nested count and the nested members, and the field `z0` BEHIND the nested group is found in the body
+    (the unchanged code kept it inside the group: `C13_orig_swallows_behind_nested_group`). -/
+theorem C13_dict_nested_group_mid (d : Dicts) (mt : Bytes) (G N : Tag) (C CN : List DNode) (hg : NestedGroup d mt G N C CN)
+    (t8 t9 t35 g0 n0 z0 t10 : TagValue) (preA M1 MN postB : List TagValue)
+    (hw8 : IsWire t8) (hw9 : IsWire t9) (hw35 : IsWire t35) (hw10 : IsWire t10)
+    (h8 : t8.tag = 8) (h9 : t9.tag = 9) (h35 : t35.tag = 35) (h10 : t10.tag = 10) (hv : t35.value = mt)
+    (hpre : PlainFields d preA) (hg0 : IsWire g0) (hG : g0.tag = G)
+    (hGh : isHeaderField d G = false) (hGt : isTrailerField d G = false)
+    (hM1 : ∀ tv ∈ M1, IsWire tv ∧ isGroupMember tv.tag C = true ∧ pathWalk C [tv.tag] = none)
+    (hn0 : IsWire n0) (hN : n0.tag = N)
+    (hMN : ∀ tv ∈ MN, IsWire tv ∧ isGroupMember tv.tag CN = true)
+    (hz : PlainFields d (z0 :: postB)) (hzmN : isGroupMember z0.tag CN = false) (hzmC : isGroupMember z0.tag C = false)
+    (hzh : isHeaderField d z0.tag = false) (hzt : isTrailerField d z0.tag = false)
+    (hzG : ∀ tv ∈ z0 :: postB, tv.tag ≠ G)
+    (hng10 : NoGroupTag d 10) (hh10 : isHeaderField d 10 = false)
+    (hbl : atoi t9.value = .ok ((fieldsLength (t8 :: t9 :: t35 :: ((preA ++ g0 :: (M1 ++ n0 :: MN)) ++ (z0 :: postB ++ [t10]))) : Nat) : Int)) :
+    ∃ (m : Message) (f : Field),
+      parseMessage Fixes.cur d (wireOf (t8 :: t9 :: t35 :: ((preA ++ g0 :: (M1 ++ n0 :: MN)) ++ (z0 :: postB ++ [t10])))) = .ok m ∧
+      m.fields = t8 :: t9 :: t35 :: ((preA ++ g0 :: (M1 ++ n0 :: MN)) ++ (z0 :: postB ++ [t10])) ∧
+      alFind m.body.lookup G = some f ∧
+      f.items m.fields = g0 :: (M1 ++ n0 :: MN) ∧
+      ((∀ tv ∈ postB, tv.tag ≠ z0.tag) → m.body.getBytes m.fields z0.tag = .ok z0.value) := by
+  obtain ⟨m, hparse, hfields, hfind, hz0find⟩ := parse_dict_nested_mid hg t8 t9 t35 g0 n0 z0 t10 preA M1 MN postB
+    hw8 hw9 hw35 hw10 h8 h9 h35 h10 hv hpre hg0 hG hGh hGt hM1 hn0 hN hMN hz hzmN hzmC hzh hzt hzG hng10 hh10 hbl
+  refine ⟨m, _, hparse, hfields, hfind, ?_, ?_⟩
+  · rw [hfields]
+    have hL : t8 :: t9 :: t35 :: ((preA ++ g0 :: (M1 ++ n0 :: MN)) ++ (z0 :: postB ++ [t10])) =
+        (t8 :: t9 :: t35 :: preA) ++ ((g0 :: (M1 ++ n0 :: MN)) ++ (z0 :: postB ++ [t10])) := by simp
+    have e : 3 + preA.length = (t8 :: t9 :: t35 :: preA).length := by simp; omega
+    have e2 : 1 + (M1 ++ n0 :: MN).length = (g0 :: (M1 ++ n0 :: MN)).length := by simp; omega
+    simp only [Field.items]
+    rw [hL, e, List.drop_left, e2, List.take_left]
+  · intro hpz
+    apply getBytes_view _ _ _ _ z0 (hz0find hpz)
+    rw [hfields]
+    have hL' : t8 :: t9 :: t35 :: ((preA ++ g0 :: (M1 ++ n0 :: MN)) ++ (z0 :: postB ++ [t10])) =
+        (t8 :: t9 :: t35 :: (preA ++ g0 :: (M1 ++ n0 :: MN))) ++ z0 :: (postB ++ [t10]) := by simp
+    rw [hL', List.getElem?_append_right (by simp; omega)]
+    have : 3 + preA.length + 1 + (M1 ++ n0 :: MN).length - (t8 :: t9 :: t35 :: (preA ++ g0 :: (M1 ++ n0 :: MN))).length = 0 := by
+      simp; omega
+    rw [this]; rfl
+
+/-- WITH THE DICTIONARY, A GROUP WHOSE NESTED GROUPS ARE FLAT, MEMBER FIELDS IN ANY ARRANGEMENT (`Walk2`: any number of entries,
+    leaf members, nested counts, nested members, back to members of the enclosing group — the D6 pop —, the next nested count), whole parse,
+    fixed code: `8, 9, 35, plain…, G=<n>, <members>, z0, plain…, 10` parses into `Message.fields` = the wire fields, the body maps `G`
+    to exactly the count field and all member fields, and `z0` — member of neither `G` nor the nested group the walk ends in — is found in
+    the body with its wire value. -/
+theorem C13_dict_depth2_group_mid (d : Dicts) (mt : Bytes) (G : Tag) (C : List DNode) (hg : OuterGroup d mt G C)
+    (t8 t9 t35 g0 z0 t10 : TagValue) (preA M postB : List TagValue) (s' : GState) (hW : Walk2 d mt G C .outer M s')
+    (hw8 : IsWire t8) (hw9 : IsWire t9) (hw35 : IsWire t35) (hw10 : IsWire t10)
+    (h8 : t8.tag = 8) (h9 : t9.tag = 9) (h35 : t35.tag = 35) (h10 : t10.tag = 10) (hv : t35.value = mt)
+    (hpre : PlainFields d preA) (hg0 : IsWire g0) (hG : g0.tag = G)
+    (hGh : isHeaderField d G = false) (hGt : isTrailerField d G = false)
+    (hz : PlainFields d (z0 :: postB)) (hzmC : isGroupMember z0.tag C = false) (hzmS : isGroupMember z0.tag (s'.members C) = false)
+    (hzh : isHeaderField d z0.tag = false) (hzt : isTrailerField d z0.tag = false)
+    (hzG : ∀ tv ∈ z0 :: postB, tv.tag ≠ G)
+    (hng10 : NoGroupTag d 10) (hh10 : isHeaderField d 10 = false)
+    (hbl : atoi t9.value = .ok ((fieldsLength (t8 :: t9 :: t35 :: ((preA ++ g0 :: M) ++ (z0 :: postB ++ [t10]))) : Nat) : Int)) :
+    ∃ (m : Message) (f : Field),
+      parseMessage Fixes.cur d (wireOf (t8 :: t9 :: t35 :: ((preA ++ g0 :: M) ++ (z0 :: postB ++ [t10])))) = .ok m ∧
+      m.fields = t8 :: t9 :: t35 :: ((preA ++ g0 :: M) ++ (z0 :: postB ++ [t10])) ∧
+      alFind m.body.lookup G = some f ∧
+      f.items m.fields = g0 :: M ∧
+      ((∀ tv ∈ postB, tv.tag ≠ z0.tag) → m.body.getBytes m.fields z0.tag = .ok z0.value) := by
+  obtain ⟨m, hparse, hfields, hfind, hz0find⟩ := parse_dict_walk2_mid hg t8 t9 t35 g0 z0 t10 preA M postB s' hW
+    hw8 hw9 hw35 hw10 h8 h9 h35 h10 hv hpre hg0 hG hGh hGt hz hzmC hzmS hzh hzt hzG hng10 hh10 hbl
+  refine ⟨m, _, hparse, hfields, hfind, ?_, ?_⟩
+  · rw [hfields]
+    have hL : t8 :: t9 :: t35 :: ((preA ++ g0 :: M) ++ (z0 :: postB ++ [t10])) =
+        (t8 :: t9 :: t35 :: preA) ++ ((g0 :: M) ++ (z0 :: postB ++ [t10])) := by simp
+    have e : 3 + preA.length = (t8 :: t9 :: t35 :: preA).length := by simp; omega
+    have e2 : 1 + M.length = (g0 :: M).length := by simp; omega
+    simp only [Field.items]
+    rw [hL, e, List.drop_left, e2, List.take_left]
+  · intro hpz
+    apply getBytes_view _ _ _ _ z0 (hz0find hpz)
+    rw [hfields]
+    have hL' : t8 :: t9 :: t35 :: ((preA ++ g0 :: M) ++ (z0 :: postB ++ [t10])) =
+        (t8 :: t9 :: t35 :: (preA ++ g0 :: M)) ++ z0 :: (postB ++ [t10]) := by simp
+    rw [hL', List.getElem?_append_right (by simp; omega)]
+    have : 3 + preA.length + 1 + M.length - (t8 :: t9 :: t35 :: (preA ++ g0 :: M)).length = 0 := by
+      simp; omega
+    rw [this]; rfl
+
+/-- the same with the group LAST in the body: CheckSum closes it at whatever nesting level the member fields end -/
+theorem C13_dict_depth2_group_last (d : Dicts) (mt : Bytes) (G : Tag) (C : List DNode) (hg : OuterGroup d mt G C)
+    (t8 t9 t35 g0 t10 : TagValue) (preA M : List TagValue) (s' : GState) (hW : Walk2 d mt G C .outer M s')
+    (hw8 : IsWire t8) (hw9 : IsWire t9) (hw35 : IsWire t35) (hw10 : IsWire t10)
+    (h8 : t8.tag = 8) (h9 : t9.tag = 9) (h35 : t35.tag = 35) (h10 : t10.tag = 10) (hv : t35.value = mt)
+    (hpre : PlainFields d preA) (hg0 : IsWire g0) (hG : g0.tag = G)
+    (hGh : isHeaderField d G = false) (hGt : isTrailerField d G = false)
+    (h10m : isGroupMember 10 (s'.members C) = false) (hh10 : isHeaderField d 10 = false)
+    (hbl : atoi t9.value = .ok ((fieldsLength (t8 :: t9 :: t35 :: ((preA ++ g0 :: M) ++ [t10])) : Nat) : Int)) :
+    ∃ (m : Message) (f : Field),
+      parseMessage Fixes.cur d (wireOf (t8 :: t9 :: t35 :: ((preA ++ g0 :: M) ++ [t10]))) = .ok m ∧
+      m.fields = t8 :: t9 :: t35 :: ((preA ++ g0 :: M) ++ [t10]) ∧
+      alFind m.body.lookup G = some f ∧ f.items m.fields = g0 :: M := by
+  obtain ⟨m, hparse, hfields, hfind⟩ := parse_dict_walk2_last hg t8 t9 t35 g0 t10 preA M s' hW
+    hw8 hw9 hw35 hw10 h8 h9 h35 h10 hv hpre hg0 hG hGh hGt h10m hh10 hbl
+  refine ⟨m, _, hparse, hfields, hfind, ?_⟩
+  rw [hfields]
+  have hL : t8 :: t9 :: t35 :: ((preA ++ g0 :: M) ++ [t10]) = (t8 :: t9 :: t35 :: preA) ++ ((g0 :: M) ++ [t10]) := by simp
+  have e : 3 + preA.length = (t8 :: t9 :: t35 :: preA).length := by simp; omega
+  have e2 : 1 + M.length = (g0 :: M).length := by simp; omega
+  simp only [Field.items]
+  rw [hL, e, List.drop_left, e2, List.take_left]
+
+/-- as `C13_dict_flat_group_mid`, with the group LAST in the body (CheckSum closes it — the position in which the unchanged code also left `10=` inside
     `bodyBytes`, D7) -/
 theorem C13_dict_flat_group_last (d : Dicts) (mt : Bytes) (G d0 : Tag) (ts : List Tag) (C : List DNode)
     (hg : FlatGroup d mt G C) (hC : C.map DNode.tag = d0 :: ts)
@@ -316,6 +442,142 @@ theorem C13_read_nested (S : Tag → Prop) (G d : Tag) (tmplr : List Item) (rest
   refine ⟨readSpecB rest es, ?_, readSpecB_length rest es, readSpecB_entry S d tmplr rest es hes⟩
   simp only [getGroup, readGroup_blocks S G d tmplr rest hS hSr hrest es hes hn _ hfuel]
 
+/-- THE TRIP THROUGH THE DICTIONARY-GUIDED PARSER FOR GROUPS WITH NESTED GROUPS: the wire of `C13_dict_depth2_group_mid` whose member fields
+    are, for the READER's template `d0 :: tmplr`, `n` entries of well-formed member blocks (`EntryOKB`: delimiter first, element fields
+    and nested groups that read back with their nested template) — after `ParseMessage` with the dictionary, `GetGroup(template)` on the
+    body's field for `G` returns exactly `n` entries; entry `i` lists the i-th entry's member tags in wire order and maps each (distinct)
+    tag to a range starting with that member's fields (for a nested group: its count field and entries); the fields behind the group
+    stay outside it. -/
+theorem C13_dict_depth2_read_back (d : Dicts) (mt : Bytes) (G : Tag) (C : List DNode) (hg : OuterGroup d mt G C)
+    (S : Tag → Prop) (d0 : Tag) (tmplr : List Item) (es : List (List Block))
+    (t8 t9 t35 z0 t10 : TagValue) (preA postB : List TagValue) (s' : GState)
+    (hW : Walk2 d mt G C .outer (es.flatMap serBlocks) s')
+    (hS : ∀ t, t ∈ tmplTags (.elem d0 :: tmplr) → S t) (hSz : S z0.tag) (hzT : findItem (.elem d0 :: tmplr) z0.tag = none)
+    (hes : ∀ e ∈ es, EntryOKB S d0 tmplr e) (hn : es.length < 9223372036854775808)
+    (hw8 : IsWire t8) (hw9 : IsWire t9) (hw35 : IsWire t35) (hw10 : IsWire t10)
+    (h8 : t8.tag = 8) (h9 : t9.tag = 9) (h35 : t35.tag = 35) (h10 : t10.tag = 10) (hv : t35.value = mt)
+    (hpre : PlainFields d preA) (hGi : inInt64 G)
+    (hGh : isHeaderField d G = false) (hGt : isTrailerField d G = false)
+    (hz : PlainFields d (z0 :: postB)) (hzmC : isGroupMember z0.tag C = false) (hzmS : isGroupMember z0.tag (s'.members C) = false)
+    (hzh : isHeaderField d z0.tag = false) (hzt : isTrailerField d z0.tag = false)
+    (hzG : ∀ tv ∈ z0 :: postB, tv.tag ≠ G)
+    (hng10 : NoGroupTag d 10) (hh10 : isHeaderField d 10 = false)
+    (hbl : atoi t9.value = .ok ((fieldsLength (t8 :: t9 :: t35 :: ((preA ++ countTV G es.length :: es.flatMap serBlocks) ++ (z0 :: postB ++ [t10]))) : Nat) : Int)) :
+    ∃ (m : Message) (f : Field) (gs : List GEntry),
+      parseMessage Fixes.cur d (wireOf (t8 :: t9 :: t35 :: ((preA ++ countTV G es.length :: es.flatMap serBlocks) ++ (z0 :: postB ++ [t10])))) = .ok m ∧
+      alFind m.body.lookup G = some f ∧
+      getGroup (.elem d0 :: tmplr) (f.full m.fields) = .ok gs ∧ gs.length = es.length ∧
+      (∀ (i : Nat) (e : List Block), es[i]? = some e → ∃ g : GEntry, gs[i]? = some g ∧ g.tags = e.map (·.tag) ∧
+        ((e.map (·.tag)).Nodup → ∀ b ∈ e, ∃ tail, alFind g.lookup b.tag = some (b.tvs ++ tail))) ∧
+      ((∀ tv ∈ postB, tv.tag ≠ z0.tag) → m.body.getBytes m.fields z0.tag = .ok z0.value) := by
+  have hg0 : IsWire (countTV G es.length) := canonTV_isWire _ (canon_init G _ (fun c hc => by
+      have := List.all_eq_true.1 (fmtNat_all_digits es.length) c hc
+      have := (isDigit_iff c).1 this; unfold SOH; omega) hGi)
+  obtain ⟨m, hparse, hfields, hfind, hz0find⟩ := parse_dict_walk2_mid hg t8 t9 t35 (countTV G es.length) z0 t10 preA (es.flatMap serBlocks) postB s' hW
+    hw8 hw9 hw35 hw10 h8 h9 h35 h10 hv hpre hg0 rfl hGh hGt hz hzmC hzmS hzh hzt hzG hng10 hh10 hbl
+  obtain ⟨gs, hget, hlen, hent⟩ := C13_read_nested S G d0 tmplr (z0 :: postB ++ [t10]) hS
+    (fun f r hfr => by simp only [List.cons_append, List.cons.injEq] at hfr; rw [← hfr.1]; exact hSz)
+    (fun f r hfr => by simp only [List.cons_append, List.cons.injEq] at hfr; rw [← hfr.1]; exact hzT) es hes hn
+  refine ⟨m, _, gs, hparse, hfind, ?_, hlen, hent, ?_⟩
+  · rw [hfields]
+    have hL : t8 :: t9 :: t35 :: ((preA ++ countTV G es.length :: es.flatMap serBlocks) ++ (z0 :: postB ++ [t10])) =
+        (t8 :: t9 :: t35 :: preA) ++ countTV G es.length :: (es.flatMap serBlocks ++ (z0 :: postB ++ [t10])) := by simp
+    have e : 3 + preA.length = (t8 :: t9 :: t35 :: preA).length := by simp; omega
+    simp only [Field.full]
+    rw [hL, e, List.drop_left]
+    exact hget
+  · intro hpz
+    apply getBytes_view _ _ _ _ z0 (hz0find hpz)
+    rw [hfields]
+    have hL' : t8 :: t9 :: t35 :: ((preA ++ countTV G es.length :: es.flatMap serBlocks) ++ (z0 :: postB ++ [t10])) =
+        (t8 :: t9 :: t35 :: (preA ++ countTV G es.length :: es.flatMap serBlocks)) ++ z0 :: (postB ++ [t10]) := by simp
+    rw [hL', List.getElem?_append_right (by simp; omega)]
+    have : 3 + preA.length + 1 + (es.flatMap serBlocks).length - (t8 :: t9 :: t35 :: (preA ++ countTV G es.length :: es.flatMap serBlocks)).length = 0 := by
+      simp; omega
+    rw [this]; rfl
+
+/-- THE TRIP THROUGH THE DICTIONARY-GUIDED PARSER, NESTED GROUPS OF ANY DEPTH: `fs` the application dictionary's field list of the message
+    type; the wire `8, 9, 35, plain…, G=<n>, <members>, z0, plain…, 10` whose member fields (a) move the parser's tag stack as the fixed
+    `parseGroup` does at any depth (`SegOKN`: `WalkN` — stay / push a nested group / pop to the enclosing level that lists the tag / pop
+    and push — and `z0` listed by no level) and (b) are, for the READER's template `d0 :: tmplr`, `n` entries of well-formed member blocks
+    (`EntryOKB`, nested groups reading back with their nested templates, any depth).  After `ParseMessage` with the dictionary,
+    `GetGroup(template)` on the body's field for `G` returns exactly `n` entries, entry `i` listing the i-th entry's member tags in wire
+    order and mapping each (distinct) tag to a range starting with that member's fields; `z0` is found in the body with its value. -/
+theorem C13_dict_anydepth_read_back (d : Dicts) (mt : Bytes) (fs : List DNode) (ha : AppMsg d mt fs) (G : Tag)
+    (S : Tag → Prop) (d0 : Tag) (tmplr : List Item) (es : List (List Block))
+    (t8 t9 t35 z0 t10 : TagValue) (preA postB : List TagValue)
+    (hseg : SegOKN d mt fs ⟨preA, countTV G es.length, es.flatMap serBlocks, z0⟩)
+    (hS : ∀ t, t ∈ tmplTags (.elem d0 :: tmplr) → S t) (hSz : S z0.tag) (hzT : findItem (.elem d0 :: tmplr) z0.tag = none)
+    (hes : ∀ e ∈ es, EntryOKB S d0 tmplr e) (hn : es.length < 9223372036854775808)
+    (hw8 : IsWire t8) (hw9 : IsWire t9) (hw35 : IsWire t35) (hw10 : IsWire t10)
+    (h8 : t8.tag = 8) (h9 : t9.tag = 9) (h35 : t35.tag = 35) (h10 : t10.tag = 10) (hv : t35.value = mt)
+    (hpost : PlainFields d postB) (hzG : ∀ tv ∈ z0 :: postB, tv.tag ≠ G)
+    (hng10 : NoGroupTag d 10) (hh10 : isHeaderField d 10 = false)
+    (hbl : atoi t9.value = .ok ((fieldsLength (t8 :: t9 :: t35 :: ((preA ++ countTV G es.length :: (es.flatMap serBlocks ++ [z0])) ++ (postB ++ [t10]))) : Nat) : Int)) :
+    ∃ (m : Message) (f : Field) (gs : List GEntry),
+      parseMessage Fixes.cur d (wireOf (t8 :: t9 :: t35 :: ((preA ++ countTV G es.length :: (es.flatMap serBlocks ++ [z0])) ++ (postB ++ [t10])))) = .ok m ∧
+      alFind m.body.lookup G = some f ∧
+      getGroup (.elem d0 :: tmplr) (f.full m.fields) = .ok gs ∧ gs.length = es.length ∧
+      (∀ (i : Nat) (e : List Block), es[i]? = some e → ∃ g : GEntry, gs[i]? = some g ∧ g.tags = e.map (·.tag) ∧
+        ((e.map (·.tag)).Nodup → ∀ b ∈ e, ∃ tail, alFind g.lookup b.tag = some (b.tvs ++ tail))) ∧
+      ((∀ tv ∈ postB, tv.tag ≠ z0.tag) → m.body.getBytes m.fields z0.tag = .ok z0.value) := by
+  have hflat : [(⟨preA, countTV G es.length, es.flatMap serBlocks, z0⟩ : Seg)].flatMap Seg.flat =
+      preA ++ countTV G es.length :: (es.flatMap serBlocks ++ [z0]) := by simp [Seg.flat]
+  obtain ⟨m, hparse, hfields, _, hgrp, hzf⟩ := parse_dict_segsN (d := d) ha t8 t9 t35 t10 [⟨preA, countTV G es.length, es.flatMap serBlocks, z0⟩] postB
+    hw8 hw9 hw35 hw10 h8 h9 h35 h10 hv (fun s hs => by simp only [List.mem_singleton] at hs; subst hs; exact hseg) hpost hng10 hh10
+    (by rw [hflat]; exact hbl)
+  rw [hflat] at hparse hfields
+  have hfind := hgrp [] ⟨preA, countTV G es.length, es.flatMap serBlocks, z0⟩ [] rfl (by
+    intro tv htv
+    simp only [List.flatMap_nil, List.nil_append] at htv
+    exact hzG tv htv)
+  have hzfind := hzf [] ⟨preA, countTV G es.length, es.flatMap serBlocks, z0⟩ [] rfl
+  simp only [List.flatMap_nil, List.length_nil, Nat.add_zero, List.nil_append] at hfind hzfind
+  obtain ⟨gs, hget, hlen, hent⟩ := C13_read_nested S G d0 tmplr (z0 :: postB ++ [t10]) hS
+    (fun f r hfr => by simp only [List.cons_append, List.cons.injEq] at hfr; rw [← hfr.1]; exact hSz)
+    (fun f r hfr => by simp only [List.cons_append, List.cons.injEq] at hfr; rw [← hfr.1]; exact hzT) es hes hn
+  refine ⟨m, _, gs, hparse, hfind, ?_, hlen, hent, ?_⟩
+  · rw [hfields]
+    have hL : t8 :: t9 :: t35 :: ((preA ++ countTV G es.length :: (es.flatMap serBlocks ++ [z0])) ++ (postB ++ [t10])) =
+        (t8 :: t9 :: t35 :: preA) ++ countTV G es.length :: (es.flatMap serBlocks ++ (z0 :: postB ++ [t10])) := by simp
+    have e : 3 + preA.length = (t8 :: t9 :: t35 :: preA).length := by simp; omega
+    simp only [Field.full]
+    rw [hL, e, List.drop_left]
+    exact hget
+  · intro hpz
+    apply getBytes_view _ _ _ _ z0 (hzfind hpz)
+    rw [hfields]
+    have hL' : t8 :: t9 :: t35 :: ((preA ++ countTV G es.length :: (es.flatMap serBlocks ++ [z0])) ++ (postB ++ [t10])) =
+        (t8 :: t9 :: t35 :: (preA ++ countTV G es.length :: es.flatMap serBlocks)) ++ z0 :: (postB ++ [t10]) := by simp
+    rw [hL', List.getElem?_append_right (by simp; omega)]
+    have : 3 + preA.length + 1 + (es.flatMap serBlocks).length - (t8 :: t9 :: t35 :: (preA ++ countTV G es.length :: es.flatMap serBlocks)).length = 0 := by
+      simp; omega
+    rw [this]; rfl
+
+/-- the same with the parser side described FROM THE DICTIONARY ALONE: the member fields are a well-nested sequence for `G`'s member list
+    (`GroupWalk`) over a dictionary tree whose levels share no tag along a branch (`TreeOK`), `z0` is listed nowhere in that tree
+    (`SegNested`); nothing is assumed about the parser's tag stack. -/
+theorem C13_dict_wellnested_read_back (d : Dicts) (mt : Bytes) (fs : List DNode) (ha : AppMsg d mt fs) (G : Tag)
+    (S : Tag → Prop) (d0 : Tag) (tmplr : List Item) (es : List (List Block))
+    (t8 t9 t35 z0 t10 : TagValue) (preA postB : List TagValue)
+    (hseg : SegNested d fs ⟨preA, countTV G es.length, es.flatMap serBlocks, z0⟩)
+    (hS : ∀ t, t ∈ tmplTags (.elem d0 :: tmplr) → S t) (hSz : S z0.tag) (hzT : findItem (.elem d0 :: tmplr) z0.tag = none)
+    (hes : ∀ e ∈ es, EntryOKB S d0 tmplr e) (hn : es.length < 9223372036854775808)
+    (hw8 : IsWire t8) (hw9 : IsWire t9) (hw35 : IsWire t35) (hw10 : IsWire t10)
+    (h8 : t8.tag = 8) (h9 : t9.tag = 9) (h35 : t35.tag = 35) (h10 : t10.tag = 10) (hv : t35.value = mt)
+    (hpost : PlainFields d postB) (hzG : ∀ tv ∈ z0 :: postB, tv.tag ≠ G)
+    (hng10 : NoGroupTag d 10) (hh10 : isHeaderField d 10 = false)
+    (hbl : atoi t9.value = .ok ((fieldsLength (t8 :: t9 :: t35 :: ((preA ++ countTV G es.length :: (es.flatMap serBlocks ++ [z0])) ++ (postB ++ [t10]))) : Nat) : Int)) :
+    ∃ (m : Message) (f : Field) (gs : List GEntry),
+      parseMessage Fixes.cur d (wireOf (t8 :: t9 :: t35 :: ((preA ++ countTV G es.length :: (es.flatMap serBlocks ++ [z0])) ++ (postB ++ [t10])))) = .ok m ∧
+      alFind m.body.lookup G = some f ∧
+      getGroup (.elem d0 :: tmplr) (f.full m.fields) = .ok gs ∧ gs.length = es.length ∧
+      (∀ (i : Nat) (e : List Block), es[i]? = some e → ∃ g : GEntry, gs[i]? = some g ∧ g.tags = e.map (·.tag) ∧
+        ((e.map (·.tag)).Nodup → ∀ b ∈ e, ∃ tail, alFind g.lookup b.tag = some (b.tvs ++ tail))) ∧
+      ((∀ tv ∈ postB, tv.tag ≠ z0.tag) → m.body.getBytes m.fields z0.tag = .ok z0.value) :=
+  C13_dict_anydepth_read_back d mt fs ha G S d0 tmplr es t8 t9 t35 z0 t10 preA postB hseg.ok hS hSz hzT hes hn
+    hw8 hw9 hw35 hw10 h8 h9 h35 h10 hv hpost hzG hng10 hh10 hbl
+
 /-- a group as in `C13_read_nested` is itself a well-formed nested block of an enclosing group: it reads back (and is skipped)
     whenever what follows carries a tag of `S'` that is allowed inside (`S`) and is not one of its template tags -/
 theorem C13_nested_group_is_block (S S' : Tag → Prop) (G d : Tag) (tmplr : List Item)
@@ -330,6 +592,103 @@ theorem C13_nested_flat_is_block (S' : Tag → Prop) (G d : Tag) (ts : List Tag)
     (es : List (List (Tag × Bytes))) (hes : ∀ e ∈ es, EntryOK d (d :: ts) e) (hn : es.length < 9223372036854775808) :
     NestedOK S' (flatTmpl (d :: ts)) (countTV G es.length :: es.flatMap serEntry) :=
   nestedOK_flat S' G d ts hS' es hes hn
+
+/-- WRITE THEN READ WITH NESTED GROUPS, ANY DEPTH (compositional).  Entries built by ARBITRARY setter calls — `Set…` for element
+    fields, `SetGroup` for nested groups, any order, overwrites allowed — on a template of distinct tags with an element
+    delimiter that every entry sets; `blockData` records, per setter call, the TagValues it contributes (for `SetGroup` what
+    the nested group's own `Write` returns), and the nested groups' wire forms read back with their own templates
+    (`BlockOK` — by `C13_nested_group_is_block` / `C13_nested_flat_is_block`, i.e. by this very theorem one level down).
+    Then `Write` emits, per entry, the members in template order with the TagValues of their LATEST setter call, and `Read`
+    of that followed by `rest` returns one entry per entry written in which every tag that was set maps to a range starting
+    with exactly those TagValues — "the same number of entries with the same fields and values in the same order,
+    including nested groups". -/
+theorem C13_roundtrip_nested (S : Tag → Prop) (G d : Tag) (tmplr : List Item) (hts : (tmplTags (.elem d :: tmplr)).Nodup)
+    (rest : List TagValue)
+    (hS : ∀ t, t ∈ tmplTags (.elem d :: tmplr) → S t) (hSr : ∀ f r, rest = f :: r → S f.tag)
+    (hrest : ∀ f r, rest = f :: r → findItem (.elem d :: tmplr) f.tag = none)
+    (es : List (List GFld)) (bss : List (List (Tag × List TagValue)))
+    (hdata : es.map (fun e => e.map blockData) = bss.map (fun bs => bs.map some))
+    (hb : ∀ bs ∈ bss, (∀ p ∈ bs, p.1 ∈ tmplTags (.elem d :: tmplr) ∧ BlockOK S (.elem d :: tmplr) ⟨p.1, p.2⟩) ∧
+      ∃ tv, latestB bs d = some [tv] ∧ tv.tag = d)
+    (hn : es.length < 9223372036854775808) :
+    ∃ tvs gs, writeGroup G (.elem d :: tmplr) es = .ok tvs ∧ getGroup (.elem d :: tmplr) (tvs ++ rest) = .ok gs ∧
+      gs.length = es.length ∧
+      ∀ (i : Nat) (bs : List (Tag × List TagValue)), bss[i]? = some bs → ∃ g : GEntry, gs[i]? = some g ∧
+        ∀ t tvs', latestB bs t = some tvs' → ∃ tail, alFind g.lookup t = some (tvs' ++ tail) :=
+  roundtrip_nested S G d tmplr hts rest hS hSr hrest es bss hdata hb hn
+
+/-- D6, AFTER THE FIX.  With the dictionary, inside a nested group `N` of a group `G` (tag stack `[G, N]`): a body field that is a
+    member of neither `N` nor `G` ends the group — the group is added to the body under its tag and the field itself becomes
+    a body field ("the fields following the group are still found"); a field that is a member of the parent `G` continues
+    the parent group with the stack popped to `[G]`. -/
+theorem C13_fixed_behind_nested_group (d : Dicts) (mt : Bytes) (G N : Tag) (C CN : List DNode) (hg : NestedGroup d mt G N C CN)
+    (fields : List TagValue) (idx j : Nat) (c : PCore) (tv g0 t35 : TagValue)
+    (hmt : MTInv fields c.header t35) (hv : t35.value = mt) (hj : fields[j]? = some g0)
+    (hmN : isGroupMember tv.tag CN = false)
+    (hh : isHeaderField d tv.tag = false) (ht : isTrailerField d tv.tag = false) (hng : NoGroupTag d tv.tag) :
+    (isGroupMember tv.tag C = false →
+      grpSwitch Fixes.cur d fields idx tv j [G, N] CN c =
+        .ok ({ c with trailerBytes := c.rawBytes, body := (c.body.add g0.tag (.view j (idx - j))).add tv.tag (.view idx 1) }, none)) ∧
+    (isGroupMember tv.tag C = true → isNumInGroupField d fields c.header [G, tv.tag] = false →
+      grpSwitch Fixes.cur d fields idx tv j [G, N] CN c = .ok ({ c with trailerBytes := c.rawBytes }, some (.grp j [G] C))) :=
+  ⟨fun hmC => grpSwitch_fixed_exits hg fields idx j c tv g0 t35 hmt hv hj hmN hmC hh ht hng,
+   fun hmC hleaf => grpSwitch_fixed_parent_member hg fields idx j c tv t35 hmt hv hmN hmC hleaf hh ht hng⟩
+
+/-- D6, THE UNCHANGED CODE: in the same situation every body field — member of an enclosing group or not — stays inside the
+    group (the loop continues in group mode with the field appended to the group's view): `Body.Has` is false for it. -/
+theorem C13_orig_swallows_behind_nested_group (d : Dicts) (mt : Bytes) (G N : Tag) (C CN : List DNode) (hg : NestedGroup d mt G N C CN)
+    (fields : List TagValue) (idx j : Nat) (c : PCore) (tv t35 : TagValue)
+    (hmt : MTInv fields c.header t35) (hv : t35.value = mt) (hmN : isGroupMember tv.tag CN = false)
+    (hh : isHeaderField d tv.tag = false) (ht : isTrailerField d tv.tag = false) (hng : NoGroupTag d tv.tag) :
+    grpSwitch Fixes.orig d fields idx tv j [G, N] CN c = .ok ({ c with trailerBytes := c.rawBytes }, some (.grp j [G, N] C)) :=
+  grpSwitch_orig_swallows hg fields idx j c tv t35 hmt hv hmN hh ht hng
+
+/-- THE TRIP THROUGH THE WIRE WITH NESTED GROUPS, WITHOUT DICTIONARY.  For every sequence of proper, SOH-free Message API
+    operations leaving BeginString and MsgType set and, under a body tag `G` that no other TagValue of the message carries, a
+    group field `G=<n>` + entries given as member blocks (`EntryOKB`: delimiter first, element fields and nested groups that
+    read back — `BlockOK`), where `S` contains the template's tags, the tags of all other fields and 10, and no other field
+    (nor 10) carries a template tag: `build`, `ParseMessage` (no dictionary), `GetGroup(template)` on the parsed body returns
+    one entry per entry written; entry `i` lists the member tags in order and maps each (distinct) tag to a range that starts
+    with that member's TagValues (element field, or count + entries of the nested group). -/
+theorem C13_trip_nodict_nested (fx : Fixes) (ops : List MOp) (hp : ∀ op ∈ ops, op.proper ∧ op.wire) (m : Message)
+    (hrun : runMOps ops Message.new = .ok m)
+    (h8 : (alFind m.header.lookup 8).isSome = true) (h35 : (alFind m.header.lookup 35).isSome = true)
+    (S : Tag → Prop) (G d : Tag) (tmplr : List Item) (es : List (List Block))
+    (hg : alFind m.body.lookup G = some (.owned (countTV G es.length :: es.flatMap serBlocks))) (gbody : secND G = .b)
+    (hes : ∀ e ∈ es, EntryOKB S d tmplr e) (hn : es.length < 9223372036854775808)
+    (hMg : ∀ tv ∈ es.flatMap serBlocks, tv.tag ≠ G)
+    (hS : ∀ t, t ∈ tmplTags (.elem d :: tmplr) → S t) (hS10 : S 10) (h10t : findItem (.elem d :: tmplr) 10 = none)
+    (others : ∀ s k l, alFind (m.sec s).lookup k = some (.owned l) → ¬ (s = .b ∧ k = G) →
+      ∀ tv ∈ l, tv.tag ≠ G ∧ S tv.tag ∧ findItem (.elem d :: tmplr) tv.tag = none)
+    (bytes : Bytes) (m' : Message) (hbuild : m.build Fixes.cur = .ok (bytes, m')) (hsmall : bytes.length < 9223372036854775808) :
+    ∃ (p : Message) (f : Field) (gs : List GEntry),
+      parseMessage fx Dicts.none bytes = .ok p ∧ alFind p.body.lookup G = some f ∧
+      getGroup (.elem d :: tmplr) (f.full p.fields) = .ok gs ∧ gs.length = es.length ∧
+      ∀ (i : Nat) (e : List Block), es[i]? = some e → ∃ g : GEntry, gs[i]? = some g ∧ g.tags = e.map (·.tag) ∧
+        ((e.map (·.tag)).Nodup → ∀ b ∈ e, ∃ tail, alFind g.lookup b.tag = some (b.tvs ++ tail)) := by
+  obtain ⟨hb, hw⟩ := runMOps_wired ops _ m Built.new Wired.new hp hrun
+  cases hf8 : alFind m.header.lookup 8 with
+  | none => rw [hf8] at h8; cases h8
+  | some f8 =>
+    cases hf35 : alFind m.header.lookup 35 with
+    | none => rw [hf35] at h35; cases h35
+    | some f35 =>
+      obtain ⟨l, hl⟩ := hb.ph.owned 8 f8 hf8
+      subst hl
+      obtain ⟨tv, rest, hl, ht⟩ := hb.ph.head 8 l hf8
+      subst hl
+      have hone := (hb.ph.special 8 _ hf8 tv (by simp) (Or.inl ht)).1
+      rw [hone] at hf8
+      obtain ⟨p, f, Z, hparse, hfind, hfull, hZ⟩ := trip_nodict_group_field fx m hb hw tv f35 hf8 hf35 G (countTV G es.length)
+        (es.flatMap serBlocks) hg rfl gbody hMg (fun s k l hl hne tv htv => (others s k l hl hne tv htv).1) bytes m' hbuild hsmall
+      have hZS : ∀ tvz ∈ Z, S tvz.tag ∧ findItem (.elem d :: tmplr) tvz.tag = none := by
+        intro tvz hz
+        rcases hZ tvz hz with e | ⟨s, k, l, hl, hne, hm⟩
+        · rw [e]; exact ⟨hS10, h10t⟩
+        · exact (others s k l hl hne tvz hm).2
+      obtain ⟨gs, hread, hlen, hent⟩ := C13_read_nested S G d tmplr Z hS
+        (fun f r hfr => (hZS f (by rw [hfr]; simp)).1) (fun f r hfr => (hZS f (by rw [hfr]; simp)).2) es hes hn
+      exact ⟨p, f, gs, hparse, hfind, by rw [hfull]; exact hread, hlen, hent⟩
 
 /-! ## not (yet) theorems -/
 
@@ -350,6 +709,11 @@ def C13_roundtrip_dict_full : Prop :=
     (∃ gs, getGroup tmpl (f.full p.fields) = .ok gs ∧ gs.length = es.length) ∧
     ∀ t, t ≠ gt → (alFind a.b t).isSome → (alFind p.body.lookup t).isSome
 
+/-! non-vacuity of `Walk2` and `SegOK`: Qfx/Lemmas/CodecDictExample.lean (NoPartyIDs with nested NoPartySubIDs, two entries) -/
+example := @exWalk2
+example := @exWalkN
+example := @exSegOKN
+
 /-! non-vacuity: a two-entry group with a follower, read back by the model -/
 example :
     (getGroup [.elem 448, .elem 447]
@@ -363,10 +727,16 @@ example :
 /- Clause checklist (properties.jsonl C13):
    "same number of entries"                                  C13_read_count, C13_write_starts_with_count, C13_read_zero
    with the dictionary that defines the group (no nested groups) C13_dict_flat_group_mid, C13_dict_flat_group_last (parseGroup + GetGroup through the dictionary template)
-   the whole trip build → parse (no dictionary) → GetGroup       C13_roundtrip_nodict_flat (templates without nesting; any message around the group)
-   "including nested groups" (Read, any depth, compositional)    C13_read_nested, C13_nested_group_is_block, C13_nested_flat_is_block
+   the whole trip build → parse (no dictionary) → GetGroup       C13_trip_nodict_nested (nested groups, any depth, compositional), C13_roundtrip_nodict_flat (templates without nesting; any message around the group)
+   "including nested groups" (any depth, compositional)          C13_roundtrip_nested (Write;Read), C13_read_nested, C13_nested_group_is_block,
+                                                                 C13_nested_flat_is_block
    "same fields and values in the same order"                 C13_roundtrip_flat (Write then Read, templates without nesting, any setter calls),
                                                              C13_read_inverts_wire_flat (whole Read, templates without nesting);
                                                              C13_read_member, C13_read_delimiter (one step each, any template); nested: C13_roundtrip_nodict_full
-   "fields following the group are still found"              C13_read_stops_at_follower; with dictionary C13_pop_returns_shorter_stack; whole: …_dict_full
+   with the dictionary, nested groups: parse + GetGroup(nested template)           C13_dict_wellnested_read_back (any depth, hypotheses from the dictionary alone),
+                                                             C13_dict_anydepth_read_back, C13_dict_depth2_read_back
+   with the dictionary, group containing nested groups (D6 scenario), whole parse   C13_dict_depth2_group_mid, C13_dict_depth2_group_last (any arrangement of
+                                                             two levels), C13_dict_nested_group_mid
+   "fields following the group are still found"              C13_read_stops_at_follower; with dictionary: C13_dict_depth2_group_mid, C13_dict_nested_group_mid, C13_fixed_behind_nested_group
+                                                             (vs. C13_orig_swallows_behind_nested_group, D6), C13_pop_returns_shorter_stack, C13_dict_flat_group_mid
    monitor clauses: group_roundtrip{dict=api|n|a|ta,nested=y|n}, followers_found{dict=…} -/
